@@ -59,6 +59,9 @@ theorem Regs.get_set {α : Type} (s : Regs α) (r r' : Reg) (x : α) :
     (s.set r x).get r' = if r' = r then x else s.get r' := by
   cases r <;> cases r' <;> rfl
 
+theorem Regs.set_get_self {α : Type} (s : Regs α) (r : Reg) : s.set r (s.get r) = s := by
+  cases r <;> cases s <;> rfl
+
 /-- one step of the model (mirrors `step` of `lean/Drivers/C18.lean`, for an arbitrary hash) -/
 def mstep (hash : Nat → Nat) (s : Regs HSet) : Op → Regs HSet × Out
   | .newDefault r => (s.set r HSet.default, .ok)
@@ -103,6 +106,12 @@ def runOps {σ : Type} (step : σ → Op → σ × Out) : σ → List Op → σ 
     let (s', o) := step s op
     let (s'', os) := runOps step s' ops
     (s'', o :: os)
+
+/-- output lists agree position by position -/
+inductive OutsEquiv : List Out → List Out → Prop
+  | nil : OutsEquiv [] []
+  | cons {o o' : Out} {os os' : List Out} : Out.Equiv o o' → OutsEquiv os os' →
+      OutsEquiv (o :: os) (o' :: os')
 
 /-- register-wise refinement -/
 def RefS (hash : Nat → Nat) (ms : Regs HSet) (ss : Regs (List Elem)) : Prop :=
@@ -161,25 +170,13 @@ theorem step_refines {hash : Nat → Nat} {ms : Regs HSet} {ss : Regs (List Elem
     exact (h r).2
   | clear r => exact ⟨h.set r (h r).1.clear, rfl⟩
   | reserve r n =>
-    refine ⟨?_, rfl⟩
     have := h.set r (((h r).1.reserve n).trans_perm (h r).2)
-    intro r'
-    have h2 := this r'
-    rw [Regs.get_set] at h2 ⊢
-    simp only [sstep]
-    split
-    · rename_i heq; rw [if_pos heq] at h2; rw [heq]; exact h2
-    · rename_i hne; rw [if_neg hne] at h2; exact h2
+    rw [Regs.set_get_self] at this
+    exact ⟨this, rfl⟩
   | rehash r n =>
-    refine ⟨?_, rfl⟩
     have := h.set r (((h r).1.rehash n).trans_perm (h r).2)
-    intro r'
-    have h2 := this r'
-    rw [Regs.get_set] at h2 ⊢
-    simp only [sstep]
-    split
-    · rename_i heq; rw [if_pos heq] at h2; rw [heq]; exact h2
-    · rename_i hne; rw [if_neg hne] at h2; exact h2
+    rw [Regs.set_get_self] at this
+    exact ⟨this, rfl⟩
   | copy src dst =>
     exact ⟨h.set dst (((h src).1.copy).trans_perm (h src).2), rfl⟩
   | move src dst =>
@@ -196,15 +193,15 @@ theorem step_refines {hash : Nat → Nat} {ms : Regs HSet} {ss : Regs (List Elem
 theorem run_refines {hash : Nat → Nat} : ∀ (ops : List Op) {ms : Regs HSet}
     {ss : Regs (List Elem)}, RefS hash ms ss →
     RefS hash (runOps (mstep hash) ms ops).1 (runOps sstep ss ops).1 ∧
-      List.Forall₂ Out.Equiv (runOps (mstep hash) ms ops).2 (runOps sstep ss ops).2 := by
+      OutsEquiv (runOps (mstep hash) ms ops).2 (runOps sstep ss ops).2 := by
   intro ops
   induction ops with
-  | nil => intro ms ss h; exact ⟨h, List.Forall₂.nil⟩
+  | nil => intro ms ss h; exact ⟨h, OutsEquiv.nil⟩
   | cons op ops ih =>
     intro ms ss h
     obtain ⟨h1, h2⟩ := step_refines h op
     obtain ⟨g1, g2⟩ := ih h1
     simp only [runOps]
-    exact ⟨g1, List.Forall₂.cons h2 g2⟩
+    exact ⟨g1, OutsEquiv.cons h2 g2⟩
 
 end Babylon.Swiss
